@@ -135,7 +135,7 @@ def oracle_container(case, rec):
     rec.cls('phase_edge=%s' % ('default' if 'edge' not in case else 'given'))
     for cache in (True, False):
         try:
-            C = emd.cycles.Cycles(p.copy(), use_cache=cache, **ekw)
+            C = emd.cycles.Cycles(p.copy()[:, None] if case.get('column') else p.copy(), use_cache=cache, **ekw)
             ig = np.asarray(C.metrics['is_good'])
         except Exception as e:
             raise Violation('C13/Cycles/raises/%s/cache=%s' % (type(e).__name__, cache), repr(e))
@@ -232,7 +232,8 @@ container_strategy = st.fixed_dictionaries({
     'p': st.one_of(gens.synth_phase(max_n=300, max_cols=1).map(lambda a: a[:, 0]),
                    gens.monotone_cycles_phase(2, 8, 3, 40).map(lambda t: t[0]),
                    gens.short_phase(30, 2))},
-    optional={'edge': st.sampled_from(EDGES), 'cmode': st.sampled_from(['cycle', 'augmented', 'augmented'])})
+    optional={'edge': st.sampled_from(EDGES), 'cmode': st.sampled_from(['cycle', 'augmented', 'augmented']),
+              'column': st.booleans()})
 
 CLAUSES = [
     Clause('C13.exhaustive', oracle_vector, enumerate=enum_alphabet, quick=None, thorough=None,
